@@ -1,6 +1,7 @@
 package harness
 
 import (
+	"context"
 	"errors"
 	"fmt"
 	"time"
@@ -62,8 +63,14 @@ func genC05(r *Rnd, t Tier) *Case {
 			case 6:
 				if r.P(0.3) {
 					ops = append(ops, Op{Kind: "rl.acquire_nomax", N: k}) // AcquirePermits: waits as long as it takes
+					if r.P(0.4) {
+						ops[len(ops)-1].CancelAt = pick(r, slot/2, slot, slot+1, time.Duration(r.Range(1, 3))*slot-1, time.Duration(r.Range(1, 40))*unit) // the caller gives up
+					}
 				} else {
 					ops = append(ops, Op{Kind: "rl.acquire", N: k, Dur: pick(r, 0, slot, time.Duration(r.Range(0, 4))*slot, time.Duration(r.Range(0, 4))*slot+1, -2, -time.Duration(r.Range(2, 50))*unit)})
+					if r.P(0.2) {
+						ops[len(ops)-1].CancelAt = pick(r, slot/2, slot, slot+1, time.Duration(r.Range(1, 3))*slot-1)
+					}
 				}
 			case 7:
 				if !concurrent {
@@ -124,6 +131,7 @@ type rlOp struct {
 	ret     int64
 	retT    time.Duration
 	out     time.Duration // wait, or -1 refused
+	gaveUp  bool          // a blocking acquire whose caller's context ended while it waited
 	task    int
 	desc    string
 }
@@ -171,6 +179,9 @@ func limiterOps(c *checkCtx) []rlOp {
 					op.out = -2 // granted; wait not returned
 				} else {
 					op.out = -1
+					if errors.Is(e.Err, context.DeadlineExceeded) || errors.Is(e.Err, context.Canceled) {
+						op.gaveUp = true
+					}
 				}
 			}
 			ops = append(ops, op)
@@ -260,8 +271,22 @@ func checkC05(c *checkCtx) {
 	sequential := len(sc.Clients) == 1
 	if sequential {
 		m := newRlModel(p)
+		uncertain := false
 		for _, op := range ops {
 			c.cov("c05.requests")
+			if op.gaveUp {
+				// whether a caller that gave up keeps its reservation is not stated: from here on only the
+				// model-free rate invariant is applied
+				c.cov("c05.blocking_wait_given_up")
+				uncertain = true
+				continue
+			}
+			if uncertain {
+				if g, ok := observedGrant(c, op); ok {
+					grants = append(grants, grant{g, op.k})
+				}
+				continue
+			}
 			got := op.out
 			blockingOp := op.kind == "rl.acquire" || op.kind == "rl.acquire_nomax" || op.kind == "exec"
 			alts := m.requestAlts(op.t, op.k, op.maxWait)
@@ -317,10 +342,19 @@ func checkC05(c *checkCtx) {
 		}
 	} else {
 		c.cov("c05.concurrent_histories")
-		checkLimiterLinearizable(c, p, ops)
+		gaveUp := false
 		for _, op := range ops {
-			if op.out >= 0 && op.t == op.retT {
-				grants = append(grants, grant{op.t + op.out, op.k})
+			if op.gaveUp {
+				gaveUp = true
+				c.cov("c05.blocking_wait_given_up")
+			}
+		}
+		if !gaveUp {
+			checkLimiterLinearizable(c, p, ops)
+		}
+		for _, op := range ops {
+			if g, ok := observedGrant(c, op); ok {
+				grants = append(grants, grant{g, op.k})
 			}
 		}
 	}
@@ -449,4 +483,21 @@ func opsText(ops []rlOp) string {
 		s += fmt.Sprintf("[task %d %s k=%d maxWait=%v t=%v..%v -> %s] ", op.task, op.kind, op.k, op.maxWait, op.t, op.retT, waitStr(op.out))
 	}
 	return s
+}
+
+// observedGrant returns the instant at which the permits of a granted request become usable,
+// taken from the history alone: request instant plus the returned wait for the non-blocking
+// calls whose instant is known exactly, the return instant for a blocking acquire (it returns
+// when its wait has elapsed) in runs without injected stalls.
+func observedGrant(c *checkCtx, op rlOp) (time.Duration, bool) {
+	blocking := op.kind == "rl.acquire" || op.kind == "rl.acquire_nomax" || op.kind == "exec"
+	switch {
+	case op.gaveUp || op.out == -1:
+		return 0, false
+	case !blocking && op.out >= 0 && op.t == op.retT:
+		return op.t + op.out, true
+	case blocking && c.Res.Out.Stalls == 0:
+		return op.retT, true
+	}
+	return 0, false
 }
